@@ -23,6 +23,27 @@ CHECKS = {
  "C18": ("exploration", "property-based testing: generated message shapes with a mirror-tree reference serializer (round-trip + exact consumption), bounded-exhaustive PER domains, generated ASN.1 trees against a reference DER/BER codec, reference T.124 encoder/decoder differential",
          "PER lengths 0..0x7fff and all u16 integers exhaustively (all u32 in thorough), offset/minimum lattice, OID lattice incl. one-element-differs negatives, octet strings at every length boundary; hundreds of thousands of generated message shapes (Size, SkipField, Option, Array, Check) checked for length()==bytes, to_vec==reference bytes, read-back of every leaf and sentinel left unread; ASN.1 trees (MCS/CredSSP shapes) to_der==reference DER and from_der/from_ber of short/long forms; GCC request for every user-data length 0..3000 through a strict T.124 decoder and generated server responses through read_conference_create_response.",
          "Trusted: refimpl per/der/gcc codecs (written from the specifications; pinned by the repository's own captured vectors). Preconditions from callers are built into the shape generator (bounded arrays/options, non-empty array elements).", "DESIGN §6 C18"),
+ "C03": ("exploration", "property-based testing: generated (configuration, conforming-server profile) pairs run against a sans-IO reference server that parses every client message strictly and checks order, dependency and identifiers",
+         "Tens of thousands (1.5 M thorough) of whole connections (MCS connect, client info/licence, 1-4 activations, shutdown) against generated conforming servers: user ids across 1001..65535, any share id, block orders / optional fields / unknown blocks, BER length forms, licence variants, known and unknown capability sets, chunked delivery. The decoded client sequence must be exactly the mandated one, each dependent message written only after its reply was readable, identifiers as assigned.",
+         "Trusted: refimpl wire parsers + sans-IO server. Mem lane uses the verif-hooks constructors in place of the TLS-only X.224 negotiation; conforming-server domain restrictions in DESIGN §4.5 (I/O channel 1003, user id != 1003, preamble flags 0x03).", "DESIGN §6 C03"),
+ "C04": ("exploration", "property-based testing: generated configurations (Unicode string classes straddling the 15/16/32 unit boundaries) with every emitted byte parsed by strict independent reference parsers",
+         "Every client PDU of generated connections is parsed strictly (TPKT, X.224, BER connect-initial, T.124 request, CS_CORE/CS_SECURITY/CS_NET sizes, 32-byte NUL-terminated client name, cb* counts and terminators, MCS PER lengths, share headers, confirm-active counts and specified capability sizes, input PDU numEvents) and decoded values are compared with the configuration.",
+         "Trusted: strict parsers written from MS-RDPBCGR / T.124 / T.125 (pinned by the repository's own captured vectors). NTLM/CredSSP tokens are covered by C15's verifier (same strict layout rules).", "DESIGN §6 C04"),
+ "C05": ("fault_enumeration", "fault injection over reference-server conversations with field maps: exhaustive per-field value sweeps, truncations, extensions, double faults, all short byte strings at parser entries; oracle = Ok/Err, no panic/spin/allocation blow-up",
+         "Every scalar field of every setup message (connection confirm, connect-response with GCC blocks, attach-user / channel-join confirms, licence) is set to every 8-bit value or the 16/32-bit boundary values; every truncation point; generated xor corruption and fault pairs over generated server profiles; every byte string of length <= 2 (3 thorough) at gcc / licence / PER entries and as the confirm payload.",
+         "Trusted: panic hook + counting allocator + EOF-read counter in the scripted transports. Allocation bounds: single <= 1 MiB + 64 n, total <= 16 MiB + 4096 n.", "DESIGN §6 C05"),
+ "C06": ("fault_enumeration", "fault injection in every activation state: exhaustive per-field value sweeps of every server PDU kind, truncations, extensions, double faults, free payloads, all short byte strings at the share-PDU / fast-path parser entries",
+         "The client is driven into each of its six states by a conforming prefix, reads one hostile frame (every field of demand-active incl. capability sets, deactivate-all, synchronize, control, font map, set-error-info, unknown data PDU, fast-path bitmap/pointer/sync/unknown updates set to every 8-bit / boundary value; truncations; generated corruption) and then one valid frame. Only Ok/Err are acceptable.",
+         "Trusted: as C05.", "DESIGN §6 C06"),
+ "C10": ("exploration", "property-based testing: generated fast-path streams against a reference description (differential on the sequence of callbacks)",
+         "Generated sequences of fast-path PDUs (0..6 updates each, bitmap updates with 0..5 rectangles, compression header present or not, data up to the 15-bit limit, both length forms, pointer / synchronize / unsupported updates interleaved) on an activated session; the callback sequence must equal the transmitted rectangles element for element.",
+         "Trusted: refimpl fast-path builder. Domain: uncompressed, unfragmented updates (as the property states).", "DESIGN §6 C10"),
+ "C11": ("exploration", "property-based testing: generated input histories interleaved with server traffic; the reference server decodes input PDUs strictly and compares one-to-one",
+         "All 8 button/state combinations at boundary coordinates plus generated histories of up to 40 steps (pointer, key, unsendable event, server traffic, write and try_write) over generated user ids / share ids.",
+         "Trusted: refimpl strict share/input PDU parser.", "DESIGN §6 C11"),
+ "C12": ("exploration", "model-based testing: bounded-exhaustive histories over the 11-letter server alphabet against a reference activation automaton, input attempt after every step",
+         "Every history up to length 5 (6 thorough) plus biased random histories up to length 60, each on a fresh connected client; after every step the client's emissions, input acceptance (write / try_write) with byte counts, and bitmap callbacks are compared with the automaton written from the property (set-valued where the property is silent).",
+         "Trusted: the 40-line reference automaton and the strict parsers. One PDU per frame only.", "DESIGN §6 C12"),
 }
 NOT_YET = "check not built yet in this session (machinery under construction; see DESIGN.md §10 build order)"
 def main():
